@@ -21,6 +21,7 @@ import (
 	"dario.cat/mergo"
 	"github.com/rs/zerolog/log"
 
+	"github.com/coreruleset/crs-toolchain/v2/internal/verifhook"
 	"github.com/coreruleset/crs-toolchain/v2/regex"
 	"github.com/coreruleset/crs-toolchain/v2/regex/processors"
 )
@@ -191,6 +192,7 @@ func (p *Parser) parseLine(line string) ParsedLine {
 	}
 
 	for name, pattern := range p.patterns {
+		verifhook.Emit("pattern-try", []string{line}, name)
 		found := pattern.FindStringSubmatch(line)
 		// found[0] has the whole line that matched, found[N] has the subgroup
 		if len(found) > 0 {
@@ -341,6 +343,7 @@ func expandDefinitions(src *bytes.Buffer, variables map[string]string) *bytes.Bu
 	logger.Trace().Msgf("expanding definitions in: %v", src.String())
 	// Definitions can contain definitions themeselves
 	for needle, replacement := range variables {
+		verifhook.Emit("def-iter", []string{needle}, replacement)
 		needle := "{{" + needle + "}}"
 		for sourceName, source := range variables {
 			variables[sourceName] = strings.ReplaceAll(source, needle, replacement)
